@@ -133,3 +133,87 @@ Fixpoint view_rtokens_tc (fuel : nat) (t : rtab) (adj : N -> option (bool * nat)
           end
       end
   end.
+
+(** ** REJECT inside rules with variable trailing context
+
+    Table side: the find_rule loop over the raw accepting lists. An entry
+    flagged YY_TRAILING_MASK starts the search for its head marker further
+    down the state stack; the action is handed the text up to that marker;
+    yyreject() comes back to the entry after the flagged one (yy_full_lp,
+    yy_full_state, yy_full_match). *)
+Fixpoint walk_raw (hl : N -> nat -> nat) (pol : N -> policy) (c : counters) (al : list (N * nat))
+  : list (N * nat) * counters * nat :=
+  match al with
+  | [] => ([], c, O)
+  | (e, k) :: rest =>
+      if HEAD_MASK <=? e then walk_raw hl pol c rest
+      else
+        let r := if TRAIL_MASK <=? e then e - TRAIL_MASK else e in
+        let oh := if TRAIL_MASK <=? e then find_head (r + HEAD_MASK) rest else Some (hl r k) in
+        match oh with
+        | None => ([(r, O)], c, O)       (* no head marker below: the tables are wrong (never with checked tables) *)
+        | Some h =>
+            let c' := cincr c r in
+            if rejects (pol r) h (cget c r)
+            then let '(ev, c2, n) := walk_raw hl pol c' rest in ((r, h) :: ev, c2, n)
+            else ([(r, h)], c', h)
+        end
+  end.
+
+Fixpoint rej_tokens_raw (fuel : nat) (hl : N -> nat -> nat) (altf : bool -> list byte -> list (N * nat)) (pol : N -> policy)
+         (c : counters) (bol : bool) (w : list byte) : list (N * nat) :=
+  match fuel with
+  | O => []
+  | S f =>
+      match w with
+      | [] => []
+      | _ =>
+          let '(ev, c', n) := walk_raw hl pol c (altf bol w) in
+          match n with
+          | O => ev
+          | _ => ev ++ rej_tokens_raw f hl altf pol c' (bol_after bol (firstn n w)) (skipn n w)
+          end
+      end
+  end.
+
+Definition view_rej_tokens_tc (fuel : nat) (t : rtab) (adj : N -> option (bool * nat)) (sc : N) (pol : N -> policy) (bol : bool) (w : list byte) :=
+  rej_tokens_raw fuel (adjust adj) (fun b u => ralts_raw t (St (start_of (c_bol (r_c t)) (Z.of_N sc - 1) b)) u) pol [] bol w.
+
+(** Specification side: a validator for the events (rule, yyleng) a scanner
+    printed. The alternatives are the specification's (rule, length of the
+    whole match incl. trailing context) list; the text an action is handed
+    must be a documented head of that match ([SplitOk]); whether the action
+    rejects follows from the policy and the yyleng it saw. *)
+Fixpoint rej_walk_v (p : program) (pol : N -> policy) (w : list byte) (c : counters) (al : list (N * nat))
+         (evs : list (N * nat)) : option (list (N * nat) * counters * nat) :=
+  match al with
+  | [] => Some (evs, c, O)
+  | (r, k) :: rest =>
+      match evs with
+      | [] => None
+      | (r', h) :: evs' =>
+          if N.eqb r r' && split_okb p r (firstn k w) h then
+            if rejects (pol r) h (cget c r) then rej_walk_v p pol w (cincr c r) rest evs'
+            else Some (evs', cincr c r, h)
+          else None
+      end
+  end.
+
+Fixpoint rej_validate (fuel : nat) (p : program) (sc : N) (pol : N -> policy) (c : counters) (bol : bool)
+         (w : list byte) (evs : list (N * nat)) : bool :=
+  match fuel with
+  | O => false
+  | S f =>
+      match w with
+      | [] => match evs with [] => true | _ => false end
+      | _ =>
+          match rej_walk_v p pol w c (salts (sobs_of (spec_start p sc bol)) w) evs with
+          | None => false
+          | Some (evs', c', n) =>
+              match n with
+              | O => match evs' with [] => true | _ => false end
+              | _ => rej_validate f p sc pol c' (bol_after bol (firstn n w)) (skipn n w) evs'
+              end
+          end
+      end
+  end.
